@@ -42,7 +42,7 @@ pub fn event(id: u64, src: &str, ctx: &Ctx, rng: &mut Rng, ndays: usize, extra_d
 
     Some(json!({
         "id": id, "src": src, "expr": astjson::expr(&parsed), "ctx": ctx.json(),
-        "days": kept, "tilings": tilings, "panics": panics,
+        "days": kept, "tilings": tilings, "panics": panics, "is_constant": parsed.is_constant(),
     }))
 }
 
